@@ -38,7 +38,7 @@ func filters() []Filter {
 	for m := 0; m < 32; m++ {
 		var f Filter
 		if m&1 != 0 {
-			f.ExHost = []string{"blocked.invalid", "out.example"}
+			f.ExHost = []string{"blocked.invalid", "out.example", "in.example:8080"} // the last one: one service of a machine excluded by host:port
 		}
 		if m&2 != 0 {
 			f.ExStr = []string{"nomatch-string", "secret"}
